@@ -479,6 +479,9 @@ func genC13(r *R, sc *Scenario, tier string) {
 	if r.P(250) {
 		// a probe of its own per replica
 		s.Readiness = &ProbeSpec{Token: "s.{{.PC_REPLICA_NUM}}", Period: iptr(Pick(r, 1, 2)), FailureThreshold: iptr(50)}
+		if r.P(400) {
+			s.Readiness.InitialDelay = iptr(Pick(r, 3, 8, 20)) // replicas are removed while their prober still waits
+		}
 		sc.Scripts["simprobe:s.*"] = &TokenScript{Launches: []simos.Script{{LifeMs: 10, Exit: 0}}}
 	}
 	sc.Mode = Pick(r, "forever", "forever", "forever", "finite", "churn")
